@@ -6,6 +6,7 @@
 #include "simfs.hpp"
 #include "model.hpp"
 #include "o5m_encode.hpp"
+#include "pbf_encode.hpp"
 
 #include <osmium/io/any_input.hpp>
 #include <osmium/io/any_output.hpp>
@@ -102,6 +103,12 @@ WritePlan gen_plan(const model::Data& d, bool for_c01, int format) {
 model::Profile profile_for_write(bool for_c01, int format) {
     model::Profile p;
     p.max_objects = for_c01 ? 120 : 80;
+    // one run in six is large enough that the compressors hand several blocks to write(2) before close()
+    // (zlib and stdio buffer 8 KiB and 4 KiB of output)
+    if (choose(S_WORK, 6) == 5) {
+        p.max_objects = 700;
+        p.max_tags = 8;
+    }
     p.history = choose(S_WORK, 4) == 0 || format == 1;   // a change file is a multi-version file
     p.changesets = choose(S_WORK, 3) == 0 && format != 1;   // change files hold nodes, ways and relations only; PBF drops changesets
     p.comments = p.changesets && choose(S_WORK, 2);
@@ -301,7 +308,8 @@ void run_c08() {
         if (choose(S_FAULT, 4) == 0 && !ref.bytes.empty()) { fault.n = ref.bytes.size() - 1 - choose(S_FAULT, static_cast<uint32_t>(std::min<size_t>(ref.bytes.size(), 16))); } // the last bytes
         fault.err = errs[choose(S_FAULT, 3)];
         fault.partial = choose(S_FAULT, 2) != 0;
-        fault_desc = "write reaching offset " + std::to_string(fault.n) + " of " + std::to_string(ref.bytes.size()) + " fails (errno " + std::to_string(fault.err) + (fault.partial ? ", after a partial write)" : ")");
+        fault.sticky = choose(S_FAULT, 3) != 0;   // one time in three the error is transient: only this write fails
+        fault_desc = std::string{fault.sticky ? "" : "(transient) "} + "write reaching offset " + std::to_string(fault.n) + " of " + std::to_string(ref.bytes.size()) + " fails (errno " + std::to_string(fault.err) + (fault.partial ? ", after a partial write)" : ")");
     } else if (fk == F_FSYNC_ERR) {
         fault.kind = simfs::Fault::FSYNC_ERR;
         fault.err = EIO;
